@@ -5,6 +5,8 @@ CONSTANTS
   Muts = {"none"}
   MaxWire = 2
   Shared = FALSE
+  KeyCache = FALSE
+  MaxGen = 1
   Depth = 4
 INVARIANT KeyOwnership
 CHECK_DEADLOCK FALSE
